@@ -178,7 +178,28 @@ def work_raw_no_eid(chunk):
         cfg.__class__ = c10.EmptyEidCfg
         w = drivers.SplitWorld(cfg)
         try:
-            for op in ("refresh", "get", "get_many", "getbulk", "refresh"):
+            learnt = False
+            for op in ("refresh", "get", "get_many", "getbulk", "refresh", "LEARN", "get", "refresh", "get_many"):
+                if op == "LEARN":
+                    # the agent answers a probe with an (unauthenticated) Report naming its engine id; the application then
+                    # installs the *same* credentials again - from here on the key is the one localized to that engine id
+                    o = w.send("refresh")
+                    data = w.take_request() if o.kind == "ok" else None
+                    if data is None:
+                        break
+                    rq = rb.parse_message(data, strict=False)
+                    vb = [((1, 3, 6, 1, 6, 3, 15, 1, 1, 4, 0), rb.tlv(0x41, b"\x01"))]
+                    pdu = rb.build_pdu(rb.PDU_REPORT, rq.request_id or 0, 0, 0, vb)
+                    usm = rb.build_usm(base.engine_id, 7, 1000, base.user, b"", b"")
+                    w.inject(rb.build_v3(rq.msg_id, 0, usm, rb.build_scoped(base.engine_id, b"", pdu)))
+                    w.recv("refresh")
+                    eid, user, a_alg, a_key, p_alg, p_key = base.raw_args(base.engine_id)
+                    so = drivers.call(w.sock.set_keys, user, a_alg, a_key, p_alg, p_key)
+                    res.count("api_calls", 3)
+                    if so.kind != "ok":
+                        break
+                    learnt = True
+                    continue
                 if op == "get":
                     o = w.send(op, rb.oid_str(SYS))
                 elif op == "get_many":
@@ -203,8 +224,8 @@ def work_raw_no_eid(chunk):
                 want = refcrypto.mac_of_message(base.auth, kul, data[:off] + bytes(12) + data[off + 12 :], off)
                 if data[off : off + 12] != want:
                     res.violation(
-                        "raw-no-engine-id/%s/mac" % base.name,
-                        "%s sent with the auth flag and engine id %r: msgAuthenticationParameters does not verify under the key localized to that engine id" % (op, bytes(r.engine_id)),
+                        "raw-no-engine-id/%s/mac%s" % (base.name, "-after-discovery" if learnt else ""),
+                        "%s sent with the auth flag and engine id %r%s: msgAuthenticationParameters does not verify under the key localized to that engine id" % (op, bytes(r.engine_id), " (learnt from a Report, same credentials installed again)" if learnt else ""),
                         {"raw_no_eid": True, "cfg": case["cfg"]},
                     )
                     break
